@@ -13,8 +13,8 @@ from ..harness import Violation
 
 ID = "C13"
 LEVEL = "exploration"
-RULE = ("Complete enumeration of all histories up to length 3 (quick) / 4 (thorough; plus Hypothesis-sampled histories of length 5..30) over the 20-letter alphabet "
-        "{connect-ok, connect-fail in {transport refuses, AUTH without keys, invalid challenge, silent device}, close, close whose transport.close() raises, exec_out, root, shell, streaming_shell, reboot, list, stat, pull, push, "
+RULE = ("Complete enumeration of all histories up to length 3 (quick) / 4 (thorough; plus Hypothesis-sampled histories of length 5..30) over the 21-letter alphabet "
+        "{connect-ok, connect-fail in {transport refuses, AUTH without keys, invalid challenge, silent device, public key answered by another challenge instead of CNXN}, close, close whose transport.close() raises, exec_out, root, shell, streaming_shell, reboot, list, stat, pull, push, "
         "and list/stat/pull/push with an empty device path}, for AdbDevice and AdbDeviceAsync. Oracle = two-state model: `available` equals the model after every step and is False when observed "
         "from inside transport.connect() of a running attempt; a disconnected operation raises AdbConnectionError (DevicePathInvalidError for an empty path; either when both apply) without a single "
         "transport write and without creating the pull destination; a connected operation is served by the simulator, returns the model's value and never raises AdbConnectionError. "
@@ -39,7 +39,7 @@ OPS = {
     "pull-empty": {"op": "pull", "path": "", "dest": "file"},
     "push-empty": {"op": "push", "src": {"kind": "bytesio", "content": b"data"}, "path": "", "mtime": 5},
 }
-CONNECTS = ["connect-ok", "connect-refused", "connect-nokeys", "connect-badchallenge", "connect-silent"]
+CONNECTS = ["connect-ok", "connect-refused", "connect-nokeys", "connect-badchallenge", "connect-silent", "connect-rechallenged"]
 ALPHABET = CONNECTS + ["close", "close-fails"] + sorted(OPS)
 
 
@@ -51,16 +51,20 @@ def apply_connect_plan(out, letter):
         sim.cfg["auth"] = {"mode": "none"}
     elif letter == "connect-nokeys":
         sim.cfg["auth"] = {"mode": "never"}
+    elif letter == "connect-rechallenged":
+        # every signature is rejected and the public key is answered with yet another challenge, never with CNXN
+        sim.cfg["auth"] = {"mode": "never", "rechallenge_after_pubkey": True}
     else:
         sim.cfg["auth"] = {"mode": "never", "bad_challenge_at": 0, "bad_arg0": 9}
     kw = {"op": "connect", "read_timeout_s": 0.1, "transport_timeout_s": 0.1, "auth_timeout_s": 0.1}
-    if letter == "connect-badchallenge":
+    if letter in ("connect-badchallenge", "connect-rechallenged"):
         kw["keys"] = [{"tag": "k0"}]
     return kw
 
 
 EXPECT_CONNECT = {"connect-ok": True, "connect-refused": "ConnectionRefusedError", "connect-nokeys": "DeviceAuthError",
-                  "connect-badchallenge": "InvalidResponseError", "connect-silent": ("AdbTimeoutError", "TcpTimeoutException")}
+                  "connect-badchallenge": "InvalidResponseError", "connect-silent": ("AdbTimeoutError", "TcpTimeoutException"),
+                  "connect-rechallenged": ("AdbTimeoutError", "TcpTimeoutException")}
 
 
 def run_history(hist, api):
